@@ -741,15 +741,15 @@ META = {
         "sql.elements.quoted_name",
     ],
     "bounds": {
-        "quick": {"quote() decision": "symbolic str, length 1..2, all of Unicode minus NUL, 7 dialects",
+        "quick": {"quote() decision": "symbolic str, length 1..2 (default, mariadb: length 1; they share _requires_quotes and differ only in reserved words), all of Unicode minus NUL, 7 dialects",
                   "forced quoting / escape": "symbolic str, length 0..3, 12 dialect+driver variants",
-                  "keywords": "symbolic lower- or upper-case ASCII-letter/underscore names of length 2..18, 7 dialects",
+                  "keywords": "sqlite: symbolic lower-case ASCII-letter(/underscore) names of length 2..18; every dialect: each word of its reserved_words in 3 spellings",
                   "quoted_name flags": "names of length 1..2 over %r, flags None/True/False, 12 variants" % "".join(ALPHABET),
                   "dotted names": "schema/table/column of length 1 over %r" % "".join(DOT_ALPHABET),
-                  "unformat_identifiers": "both names symbolic with length 1; one symbolic (length <=2) and one from a pool of %d" % len(UNF_POOL)},
+                  "unformat_identifiers": "one name symbolic (length 1), the other from {a, A, ., closing quote}; sqlite, mysql, mssql grammars"},
         "thorough": {"quote() decision": "symbolic str, length 1..3", "forced quoting / escape": "length 0..4",
                      "keywords": "as quick, length 1..24", "quoted_name flags": "as quick", "dotted names": "as quick",
-                     "unformat_identifiers": "both symbolic with lengths <=2 x <=1; one symbolic (length <=2) and one from the pool"},
+                     "unformat_identifiers": "one name symbolic (length <=2), the other from a pool of %d; both symbolic with length 1; + postgresql" % len(UNF_POOL)},
     },
     "outside": ["the empty identifier (no backend accepts a zero-length name; _requires_quotes('') raises IndexError)",
                 "NUL characters (backends reject them)",
@@ -788,16 +788,18 @@ def harnesses(tier: str) -> List[Harness]:
     hs.append(Harness("flag", h_flag, [dict(dn=d, flag=f) for d in DIALECTS for f in FLAGS], budget_s=40))
     hs.append(Harness("dotted", h_dotted, [dict(dn=d, with_schema=w) for d in MAIN for w in (False, True)], budget_s=60))
     unf = []
-    for d in MAIN:
-        if q:
-            unf.append(dict(dn=d, la=1, lb=1, fixed=""))
-        else:
-            unf += [dict(dn=d, la=x, lb=y, fixed="") for x, y in ((1, 1), (2, 1), (1, 2))]
-        for k in range(len(UNF_POOL)):
-            for ln in (1, 2):
+    # unformat_identifiers is shared code; the grammars differ: "..." (sqlite), `...` (mysql), [...] (mssql),
+    # "..." with %% doubling (postgresql, thorough only).  The regex runs symbolically: ~1 s per path.
+    for d in (("sqlite", "mysql", "mssql") if q else ("sqlite", "mysql", "mssql", "postgresql")):
+        close = DELIMS[FAMILY[d]][1]
+        pool = [k for k, v in enumerate(UNF_POOL) if (v in ("a", "A", ".", close) if q else True)]
+        for k in pool:
+            for ln in ((1,) if q else (1, 2)):
                 unf.append(dict(dn=d, la=0, lb=ln, fixed="a:%d" % k))
                 unf.append(dict(dn=d, la=ln, lb=0, fixed="b:%d" % k))
-    hs.append(Harness("unformat", h_unformat, unf, budget_s=60 if q else 600))
+        if not q:
+            unf.append(dict(dn=d, la=1, lb=1, fixed=""))
+    hs.append(Harness("unformat", h_unformat, unf, budget_s=90 if q else 900, per_path_timeout=30))
     return hs
 
 
